@@ -227,6 +227,15 @@ fn oracle(d: &Def, imp: &Emission, units: &BTreeMap<&'static str, &'static str>)
                 what: format!("sample-group pair is named {:?} but the written item (and the documented pair) is {:?}: the flatten prefix is missing", i.0, d.0),
             });
         }
+        if imp.sg == s.sg_wrapper_dropped {
+            return Some(Verdict {
+                key: "naming:sample-group-dropped-by-wrapper".into(),
+                what: format!(
+                    "sample_group() = {:?} lacks the pairs of a child flattened through ForceFlag / WithDimensions (documented {:?})",
+                    imp.sg, s.sg
+                ),
+            });
+        }
         return Some(Verdict {
             key: "naming:sample-group".into(),
             what: format!("sample_group() = {:?}, documented {:?}", imp.sg, s.sg),
@@ -278,12 +287,12 @@ fn paths(d: &Def) -> Vec<Def> {
     for f in sel_fields(d) {
         match f {
             Field::Plain { .. } | Field::FlattenEntry { .. } => out.push(with_fields(d, vec![f.clone()])),
-            Field::Flatten { pfx, optional, present, child } => {
+            Field::Flatten { pfx, optional, wrap, present, child } => {
                 if *present {
                     for p in paths(child) {
                         out.push(with_fields(
                             d,
-                            vec![Field::Flatten { pfx: pfx.clone(), optional: *optional, present: true, child: Box::new(p) }],
+                            vec![Field::Flatten { pfx: pfx.clone(), optional: *optional, wrap: *wrap, present: true, child: Box::new(p) }],
                         ));
                     }
                 }
@@ -386,7 +395,11 @@ fn st(style: Style, pfx: Option<Pfx>, fields: Vec<Field>) -> Def {
 }
 
 fn fl(pfx: Option<Pfx>, child: Def) -> Field {
-    Field::Flatten { pfx, optional: false, present: true, child: Box::new(child) }
+    Field::Flatten { pfx, optional: false, wrap: Wrap::Owned, present: true, child: Box::new(child) }
+}
+
+fn flw(pfx: Option<Pfx>, wrap: Wrap, optional: bool, child: Def) -> Field {
+    Field::Flatten { pfx, optional, wrap, present: true, child: Box::new(child) }
 }
 
 fn seeds(thorough: bool) -> Vec<Def> {
@@ -423,6 +436,39 @@ fn seeds(thorough: bool) -> Vec<Def> {
         // the known finding in its minimal forms: flatten prefix over a sample-group field / tag
         out.push(st(s, None, vec![fl(Some(Pfx::Infl("down_".into())), st(Style::Preserve, None, vec![sg_str("op")]))]));
     }
+    // every way a flatten field can hold its child (every forwarding impl of metrique-core and every
+    // CloseValue impl producing one), below a renaming root with a container prefix, one and two
+    // flatten prefixes above; the child has a plain field and (where the wrapper forwards it) a
+    // sample-group field
+    for &s in styles {
+        let leaf = |sg: bool| {
+            let mut f = vec![plain_u("fooBar")];
+            if sg {
+                f.push(sg_str("opKind"));
+            }
+            st(Style::Preserve, None, f)
+        };
+        let mut mid_fields = vec![];
+        let mut top_fields = vec![plain_u("top_n")];
+        for (i, w) in Wrap::ALL.iter().copied().enumerate() {
+            let sg = !w.drops_sample_group();
+            let f = flw(Some(Pfx::Infl(format!("w{i}{}_", w.tok()))), w, i % 3 == 1, leaf(sg));
+            if w.by_value_only() {
+                top_fields.push(f);
+            } else {
+                mid_fields.push(f);
+            }
+        }
+        top_fields.push(fl(Some(Pfx::Infl("Mid-".into())), st(Style::Preserve, Some(Pfx::Exact("M.".into())), mid_fields)));
+        out.push(st(s, Some(Pfx::Infl("top_".into())), top_fields));
+    }
+    // a wrapper inside a wrapper, and a child with its own rename_all behind a wrapper
+    out.push(st(Style::Snake, None, vec![flw(
+        Some(Pfx::Infl("Outer".into())),
+        Wrap::Arc,
+        true,
+        st(Style::Preserve, None, vec![flw(Some(Pfx::Exact("in:".into())), Wrap::Box, false, st(Style::Kebab, None, vec![plain_u("deepField"), sg_str("deepOp")]))]),
+    )]));
     out.push(st(Style::Preserve, None, vec![fl(
         Some(Pfx::Exact("X:".into())),
         Def::Enum {
@@ -599,7 +645,8 @@ fn distribution(rep: &mut Report, d: &Def, imp: Option<&Emission>) {
                 Field::Ignore => rep.bump("field:ignore"),
                 Field::Timestamp => rep.bump("field:timestamp"),
                 Field::FlattenEntry { .. } => rep.bump("field:flatten_entry"),
-                Field::Flatten { pfx, present, child, .. } => {
+                Field::Flatten { pfx, present, child, wrap, optional } => {
+                    rep.bump(&format!("flatten-holds:{}{wrap:?}", if *optional { "Option<>+" } else { "" }));
                     rep.bump(match pfx {
                         None => "flatten:no-prefix",
                         Some(Pfx::Infl(_)) => "flatten:prefix",
@@ -775,6 +822,7 @@ fn main() {
         let max_depth = if thorough { 5 } else { 3 };
         let mut used: usize = cases.iter().map(type_count).sum();
         let mut g = Gen::new(rng.fork(2));
+        g.wrapper_sample_groups = args.extra.get("wrapper-sample-groups").map(|v| v == "1").unwrap_or(false);
         let mut inst_rng = rng.fork(3);
         let mut trees = 0;
         while used < budget {
